@@ -220,7 +220,17 @@ def run(ctx):
             check_driver(ctx, u, f, '%s<%s>' % (dn, targs(f)[0]), wn)
     # divisibility precondition of the block form
     for f in [f for f in u.funcs('phosg::parallel_range_blocks') if targs(f)]:
-        g = [x for x in walk(body_of(f)) if x.get('kind') == 'IfStmt' and nf(if_parts(x)[0]) == '((end_value - start_value) % block_size)' and not falls_through(if_parts(x)[1])]
+        from guard import subst_locals as _sl
+        g = []
+        for x in walk(body_of(f)):
+            if x.get('kind') != 'IfStmt' or falls_through(if_parts(x)[1]):
+                continue
+            c_ = _sl(nf(if_parts(x)[0]), x)
+            r_ = relation(if_parts(x)[0], True)
+            if r_ and r_[1] == '!=' and '0' in (nf(r_[0]), nf(r_[2])):
+                c_ = _sl(nf(r_[0]) if nf(r_[2]) == '0' else nf(r_[2]), x)
+            if c_ == '((end_value - start_value) % block_size)':
+                g.append(x)
         ctx.check(len(g) == 1, 'C16-R1', 'parallel_range_blocks<%s>|block-size-divides-range' % targs(f)[0], f, 'a block size that does not divide the range is rejected (so no block extends past end_value)', 'the divisibility check is gone: the last block runs the callback on values >= end_value')
     # multi
     R = 'C16-R3'
@@ -272,7 +282,9 @@ def run(ctx):
             init, cv, cond, inc, lbody = for_parts(loops[0])
             zd = next((v for v in walk(init) if v.get('kind') == 'VarDecl'), None)
             s0 = int_value(kids(zd)[-1]) if zd is not None and kids(zd) else None
-            full = cond is not None and nf(cond) == '(%s < thread_rets.size())' % zd['name'] and inc is not None and nf(inc) == '(%s++)' % zd['name']
+            if zd is None:
+                zd = {'name': '?'}
+            full = cond is not None and nf(cond) == '(%s < thread_rets.size())' % zd['name'] and inc is not None and nf(inc) in ('(%s++)' % zd['name'], '(++%s)' % zd['name'])
             merges = [c for c in walk(lbody) if c.get('kind') == 'CXXMemberCallExpr' and call_name(c) in ('insert', 'merge') and canon(member_call_object(c)) == 'ret']
             skip_k = any(x.get('kind') == 'IfStmt' and any(y.get('kind') == 'ContinueStmt' for y in walk(if_parts(x)[1])) for x in walk(lbody))
             okm = full and len(merges) == 1 and ((k == 0 and s0 == 1) or (s0 == 0 and skip_k))
@@ -285,7 +297,25 @@ def run(ctx):
             cond_ = any(x_.get('kind') in ('IfStmt', 'ContinueStmt', 'BreakStmt') for x_ in walk(loop_body(rf_[0])))
             if len(mg_) == 1 and not cond_:
                 okm, why = True, 'an empty result is merged with every element of thread_rets'
-    ctx.check(okm, R, 'multi|all-sets-merged', ret or M, why, 'the merge does not cover every per-thread set: ' + why)
+    recognised = okm or (ret is not None and 'result starts from thread_rets[' in why and 'merge loop starts at None' not in why and '?' not in why.split(':')[0])
+    if not okm and ret is not None:
+        # iterator form: ret = move(*it) with it = begin(); for (++it; it != end(); ++it) ret.insert(it->...)
+        itv = [v for v in walk(mb) if v.get('kind') == 'VarDecl' and kids(v) and any(c_.get('kind') == 'CXXMemberCallExpr' and call_name(c_) == 'begin' and canon(member_call_object(c_)) == 'thread_rets' for c_ in walk(v))]
+        if len(itv) == 1 and any((ref_decl(y_) or {}).get('id') == itv[0]['id'] for y_ in walk(ret)):
+            lps_ = [lp_ for lp_ in walk(mb) if lp_.get('kind') == 'ForStmt' and lp_['_off'] > ret['_off']]
+            if len(lps_) == 1:
+                init, cv, cond, inc, lbody = for_parts(lps_[0])
+                adv = lambda n_: n_ is not None and n_.get('kind') and any(y_.get('kind') == 'CXXOperatorCallExpr' and call_name(y_) == 'operator++' and (ref_decl(kids(y_)[1]) or {}).get('id') == itv[0]['id'] for y_ in walk(n_))
+                ends = cond is not None and any(c_.get('kind') == 'CXXMemberCallExpr' and call_name(c_) == 'end' and canon(member_call_object(c_)) == 'thread_rets' for c_ in walk(cond))
+                mg_ = [c for c in walk(lbody) if c.get('kind') == 'CXXMemberCallExpr' and call_name(c) in ('insert', 'merge') and canon(member_call_object(c)) == 'ret']
+                cond_ = any(x_.get('kind') in ('IfStmt', 'ContinueStmt', 'BreakStmt') for x_ in walk(lbody))
+                moved_between = [y_ for y_ in walk(mb) if y_.get('kind') == 'CXXOperatorCallExpr' and call_name(y_) in ('operator++', 'operator+=') and (ref_decl(kids(y_)[1]) or {}).get('id') == itv[0]['id'] and itv[0]['_off'] < y_['_off'] < ret['_off']]
+                if adv(init) and adv(inc) and ends and len(mg_) == 1 and not cond_ and not moved_between:
+                    okm, why = True, 'the result starts from *begin() and every later element up to end() is merged'
+    if okm or recognised:
+        ctx.check(okm, R, 'multi|all-sets-merged', ret or M, why, 'the merge does not cover every per-thread set: ' + why)
+    else:
+        ctx.undecided(R, 'multi|all-sets-merged', ret or M, 'the merge of the per-thread sets is not written in a form this rule reads (%s)' % why)
     fwd = [c for c in walk(mb) if c.get('kind') == 'CallExpr' and call_name(c) == 'parallel_range_blocks']
     ctx.check(len(fwd) == 1 and [nf(a) for a in call_args(fwd[0])[1:]] == ['start_value', 'end_value', 'block_size', 'num_threads', 'progress_fn'], R, 'multi|delegates', fwd[0] if fwd else M, 'delegates to parallel_range_blocks over the same range and thread count', 'the delegation to parallel_range_blocks changed')
     ctx.note('Instantiated for IntT = uint64_t and uint32_t. Not decided: the interleaving semantics (taken from the C++ memory model); overflow of the cursor for ranges ending within num_threads of the type\'s maximum.')
